@@ -22,8 +22,7 @@ NOT_APPLICABLE = {
     'C06': 'frequency-domain approximation-error statement about an IIR filter with exp/cos; no float semantics in Verus, CBMC libm models are non-deterministic (DESIGN.md section 6)',
     'C13': 'same as C06 plus powf and a stability claim (DESIGN.md section 6)',
 }
-for _p in ['C01', 'C05', 'C07', 'C12', 'C14', 'C15', 'C16', 'C18']:
-    NOT_APPLICABLE[_p] = PENDING
+
 
 PROPS = {
     'C02': {
@@ -98,6 +97,72 @@ PROPS = {
                         'Model::find_tree_index == first tree whose state matches (Kani-checked, bounded trees <= 3)'],
         'trusted_base': [],
         'not_decided': ['HTS wildcard semantics of question matching', 'split_sections / header serde / window rows / tree text -> node table (parse_node, convert_tree)', 'f32 little-endian PDF block offsets in parse_model', 'options -> Condition (load_model option loop)'],
+    },
+    'C18': {
+        'technique': 'Kani harnesses (built-in panic / overflow / index checks) on the loader\'s own slicing, integer accumulation and tree conversion',
+        'level_text': 'function-level: for every range / digit string / reference in the stated bounds the mechanism returns Ok or Err and never panics',
+        'level_note': 'PARTIAL: nom combinators, serde, jlabel-question parse and regex are outside the verifier (assumed panic-free, non-looping, allocation-capped); whole-file quantification over arbitrary bytes is not reached; pdf_len / num_states*2 arithmetic in parse_data_section not covered',
+        'verus': [],
+        'assumptions': ['nom 8, serde, jlabel-question, regex never panic and never loop on empty matches (not verified)'],
+        'trusted_base': [],
+        'not_decided': ['whole-file quantifier (any byte sequence)', 'allocation bounds', 'pdf_len arithmetic overflow in parse_data_section', 'deserialize_hashmap key slicing'],
+    },
+    'C15': {
+        'technique': 'Kani harnesses on StreamParameter::apply_additional_half_tone + Verus contract on Engine::generator',
+        'level_text': 'bounded (2 states x 2 windows) but fully symbolic values: only the static log-F0 mean of each state changes, to clamp(mean + h*HALF_TONE); h = 0 is the bitwise identity; unbounded proof that the shift is applied to stream 1 only, before MLPG, and reaches neither durations nor the other streams',
+        'level_note': 'mean-level claim; the trajectory-level shift after MLPG (exact arithmetic only) is not decided',
+        'verus': ['engine'],
+        'assumptions': [], 'trusted_base': [],
+        'not_decided': ['log-F0 of every voiced FRAME shifts by h*ln2/12 after MLPG (holds in exact arithmetic only)', 'HALF_TONE is the double nearest ln2/12 (ground computation, not a proof)'],
+    },
+    'C01': {
+        'technique': 'Verus contracts on the extracted text of SpeechGenerator, DurationEstimator and Engine::{generator,synthesize}; Kani harnesses for hole contracts and MlpgAdjust::create shapes',
+        'level_text': 'unbounded proof of no-panic and exact length (fperiod x sum of state durations), every state >= 1 frame, every label contributes all states, empty -> empty, for 2- and 3-stream voices, relative to the assumed contracts of Models / MlpgAdjust / Vocoder; those contracts are bounded-checked by Kani where stated',
+        'level_note': 'finiteness / "NaN only after runaway growth" is NOT decided (IIR stability in floating point); Vocoder::synthesize panic-freedom under shape_ok, Models::duration length and MlpgAdjust::create shape are assumed in Verus and only bounded-checked; usize overflow of frame totals excluded by precondition',
+        'verus': ['speech', 'duration', 'engine'],
+        'assumptions': VOC_ASSUMED + ['Models::duration returns labels*nstate entries (assumed)', 'MlpgAdjust::create returns sum(durations) rows of vector_length values (Kani: bounded)'],
+        'trusted_base': [],
+        'not_decided': ['all samples finite inside the stable range; non-finite only after runaway growth', 'Model::get_parameter todo!() unreachable only for well-formed models (precondition lookup_ok in unit tree)'],
+    },
+    'C05': {
+        'technique': 'Kani harnesses on Mask::{create,fill,boundary_distances} and MlpgAdjust::create (argument capture by stubbing calc_wuw_and_wum)',
+        'level_text': 'bounded: frame -> state expansion, unvoiced frames carry NODATA, dynamic windows at an edge get zero precision, boundary distances on all masks of 4 frames',
+        'level_note': 'PARTIAL: that calc_wuw_and_wum accumulates W\'U^-1W and that LDL + substitutions solve the normal equations to rounding accuracy is NOT decided (real-number linear algebra; no float semantics in Verus, symbolic products intractable in CBMC)',
+        'verus': [],
+        'assumptions': [], 'trusted_base': [],
+        'not_decided': ['maximum-likelihood optimality: W\'U^-1W c = W\'U^-1 mu to rounding accuracy', 'zero-precision rule next to unvoiced frames (only the utterance-edge case is checked)'],
+    },
+    'C07': {
+        'technique': 'Kani loop-free harnesses on Excitation::{start,get,end}, Random::rnd, Mseq::next, ring buffer step',
+        'level_text': 'complete (loop-free, full symbolic f64 domain within the stated envelope 2 <= T0 <= 4800) proof of the pulse-train step contract and its invariant 0 <= counter < T0; LCG / M-sequence recurrences for all states; one ring-buffer step for nlpf = 3',
+        'level_note': 'PARTIAL: noise statistics (zero mean, unit variance, whiteness) and exp/sqrt accuracy are not decided; sqrt is an uninterpreted stub; the glide increment is checked as dataflow only; pitch clamp in Vocoder::synthesize not covered',
+        'verus': [],
+        'assumptions': ['sqrt returns a finite non-negative value (stub)'], 'trusted_base': [],
+        'not_decided': ['zero-mean unit-variance white noise', 'pulse height equals sqrt(T0) numerically (libm)', 'period from log-F0 with clamp to [ln 20, ln 20000] in Vocoder::synthesize', 'linear glide value (p - prev)/fperiod'],
+    },
+    'C12': {
+        'technique': 'Kani harnesses on MlpgMatrix::par and MlpgGlobalVariance::apply_gv + Verus contract on Engine::generator',
+        'level_text': 'bounded (T = 2): a stream without GV returns exactly solve() whatever the GV weight; with no eligible frame the trajectory is returned unchanged for all symbolic values; unbounded proof that gv_weight[i] reaches stream i only',
+        'level_note': 'PARTIAL: "variance within 20% of the target for >= 100 eligible frames" and monotonicity in the weight are NOT decided (empirical convergence of a damped Newton iteration)',
+        'verus': ['engine'],
+        'assumptions': [], 'trusted_base': [],
+        'not_decided': ['variance within 20% of gv_weight x GV mean', 'monotone growth with the weight', 'target = GV mean x weight (apply_gv argument)', 'Models::gv switch from gv_off_context'],
+    },
+    'C14': {
+        'technique': 'Kani harnesses on MelCepstrum::postfilter_mcp no-op cases, native contract on Condition::set_beta, Verus contract on Engine::generator',
+        'level_text': 'bounded (order <= 3) but fully symbolic values: beta <= 0 and cepstra with at most two coefficients are left bit-identical; beta is clamped to [0,1] and reaches only Vocoder::new',
+        'level_note': 'PARTIAL: the active branch (scaling of b_k, b_1 compensation, energy renormalisation through b2en with a 576-tap impulse response) is NOT decided',
+        'verus': ['engine'],
+        'assumptions': [], 'trusted_base': [],
+        'not_decided': ['c_k (k>=2) multiplied by 1+beta, c_1 unchanged', 'impulse-response energy preserved within 1%'],
+    },
+    'C16': {
+        'technique': 'Kani frame harness on Condition::set_volume (exp stubbed as an uninterpreted function) + Verus contract on Engine::generator',
+        'level_text': 'complete frame proof: set_volume writes the volume field only; unbounded proof that condition.volume reaches Vocoder::new\'s volume argument and nothing else in the pipeline',
+        'level_note': 'PARTIAL: "multiplies every sample by 10^(v/20)" inside Vocoder::synthesize and the dB round trip ln(exp(x)) ~ x are NOT decided (libm; CBMC models are non-deterministic)',
+        'verus': ['engine'],
+        'assumptions': ['exp is a deterministic positive function (stub)'], 'trusted_base': [],
+        'not_decided': ['rawdata[i] = x * volume inside Vocoder::synthesize', 'get_volume(set_volume(v)) ~ v', 'DB is the double nearest ln10/20'],
     },
     'C20': {
         'technique': 'Kani native function contracts (requires/ensures/modifies + proof_for_contract) and loop-free full-domain harnesses on Condition setters/getters',
